@@ -29,7 +29,22 @@ func (w *WaitGroup) Wait()     { w.s.Wait() }
 // pass-through types
 type (
 	Map    = realsync.Map
-	Once   = realsync.Once
 	Pool   = realsync.Pool
 	Locker = realsync.Locker
 )
+
+// Once is modelled on the modelled mutex: a second caller waits (visibly to the scheduler) until the first
+// call of f has returned, as with sync.Once.
+type Once struct {
+	m    Mutex
+	done bool
+}
+
+func (o *Once) Do(f func()) {
+	o.m.Lock()
+	defer o.m.Unlock()
+	if !o.done {
+		defer func() { o.done = true }()
+		f()
+	}
+}
